@@ -158,6 +158,11 @@ func main() {
 		if err == nil {
 			err = corr.SubRegVsSweep(d, res, *seed, "loss")
 		}
+		if err == nil {
+			// a subscription nobody reads, thousands of values behind, must not keep the others (or the close) from
+			// terminating (shared with C18)
+			err = corr.CloseWithBacklog(res, *seed, 12000)
+		}
 	case "C09":
 		res.Rule = "bodies generated from a JSON-RPC grammar and its mutations; plus request frames from the same grammar sent one at a time over a raw WebSocket connection (response frames on the wire and handler invocations compared with the model's execFrame/wsCall); distinct = distinct (kind, canonical reply, invocation list); non-trivial = a handler ran, or the reply has more than one token, or status != 200"
 		err = c09.Run(d, res, *seed, n(4000, 80000), corpus)
@@ -187,6 +192,10 @@ func main() {
 		}
 		if err == nil && *replay == "" {
 			err = c01.StringKinds(res)
+		}
+		if err == nil && *replay == "" {
+			// "under every method-name formatter shared by both sides": names outside ASCII too (shared with C12)
+			err = c12.NonASCII(res)
 		}
 	case "C02":
 		res.Rule = "N concurrent blocked calls released in a chosen completion order: every permutation for N <= 3 (4 and 5: sampled in quick / all resp. 40 in thorough), random orders for N in 6..25; seed-driven delays at registration, write, lookup, delivery and delete; each call must return exactly its own token and be executed once; the client endpoint's hook trace is replayed through Jrpc.Corr; plus an HTTP server answering with foreign / mistyped / missing ids; distinct = (N, order)"
